@@ -2,6 +2,13 @@
 """Write SEEDED.md from seeded/*/meta.json."""
 import json, os, glob
 ROOT = os.path.dirname(os.path.dirname(os.path.abspath(__file__)))
+NOTES = {
+    "C03-2B": "outside C03's statement (needs the caller to mutate the argument object after the call); it is C19's clause "
+              "'recorded constraints independent of the argument' and C19 catches it",
+    "C09-2A": "NOT caught, deliberately: for a Matrix model whose terms cancelled the change returns assignments over the "
+              "*reported* variables instead of the variables in the keys; the labelled types of the unchanged library already "
+              "do exactly that, so 'the model's variables' is not pinned for stale models and both readings are accepted",
+}
 rows = []
 for d in sorted(glob.glob(os.path.join(ROOT, "seeded", "*"))):
     mp = os.path.join(d, "meta.json")
@@ -18,7 +25,7 @@ for d in sorted(glob.glob(os.path.join(ROOT, "seeded", "*"))):
     rows.append((os.path.basename(d), m.get("title", ""), m.get("needs_to_manifest", ""),
                  "yes" if c.get("demo_unchanged_rc") == 0 and c.get("demo_changed_rc") not in (0, None) else "NO",
                  "398/398" if c.get("tests_pass") else "?", "; ".join(caught) or "-", ", ".join(missed) or "-",
-                 "missed at first; check strengthened" if first_missed else ""))
+                 NOTES.get(os.path.basename(d), "missed at first; check strengthened" if first_missed else "")))
 out = ["# Independently seeded changes and which check catches which",
        "",
        "Each change was written by a fresh sub-agent that was given only the text of one property and its own scratch",
@@ -34,7 +41,8 @@ out = ["# Independently seeded changes and which check catches which",
 for r in rows:
     out.append("| " + " | ".join(str(x).replace("|", "/").replace("\n", " ")[:420] for x in r) + " |")
 out.append("")
-out.append("%d seeded changes confirmed; %d caught by the quick tier of their property's check." % (
-    len(rows), sum(1 for r in rows if r[5] != "-")))
+out.append("%d seeded changes confirmed; %d caught by the quick tier of a registered check (%d by their own property's check)." % (
+    len(rows), sum(1 for r in rows if r[5] != "-"),
+    sum(1 for r in rows if r[5].startswith(r[0].split("-")[0]) or (r[0].split("-")[0] + " (") in r[5])))
 open(os.path.join(ROOT, "SEEDED.md"), "w").write("\n".join(out) + "\n")
 print("\n".join(out[-2:]))
